@@ -55,6 +55,8 @@ def seq_of(ev, t, selfs, others):
                 return None
             out += s
         return out
+    if t.k == "call" and t.a[0].endswith("iter::sources::once::once") and len(t.a) == 2:
+        return seq_of(ev, t.a[1], selfs, others)        # an iterator of exactly that one element
     if t.k == "call" and PL.is_iter_call(t.a[0]):
         m = PL.method_name(t.a[0])
         if m in ("collect", "into_iter", "iter") and len(t.a) == 2:
@@ -233,7 +235,8 @@ def r3(prog, ev, rep):
     rep.check(ok_apply, "C02-R3", "Segment::Descendant/every-input", prog.loc_of(gp), "segment.process(step.flat_map(expand)) on the whole incoming list",
               "the descendant segment does not expand *every* input node (incoming list is `%s`): nodes reached from nested or repeated inputs "
               "lose their multiplicity" % (body.a[2].a[1] if body.k == "call" and len(body.a) > 2 and body.a[2].k == "call" else body))
-    t = ev.summary(fn)
+    from vflib.terms import deep_distribute
+    t = deep_distribute(ev.summary(fn))
     where = prog.loc_of(fn)
     node = Tm("param", (0, prog.params(fn)[0]["pat"].get("name", "data")))
     red = prog.inherent_method(DATA, "reduce")
@@ -399,4 +402,22 @@ def r5(prog, ev, rep):
             rep.check(per_node, "C02-R5", "%s|input-major" % fn, c.loc(), "selectors applied per input node", "selector applied to `%s`" % arg)
     # selectors in written order, concatenated left to right
     src_ok = any(c.k == "call" and PL.method_name(c.a[0]) in ("iter", "into_iter") and len(c.a) == 2 and c.a[1].k == "param" and c.a[1].a[0] == 1 for c in trace)
+    if not src_ok:
+        # `match selectors.split_first() { Some((first, rest)) => rest.iter().fold(first.process(..), |acc, s| acc.reduce(s.process(..))) }`:
+        # the head first, then the tail in order, each result appended after the accumulated ones
+        sel_p = Tm("param", (1, prog.params(fn)[1]["pat"].get("name", "selectors"))) if len(prog.params(fn)) > 1 else None
+        sf = [c for c in trace if c.k == "call" and PL.method_name(c.a[0]) == "split_first" and len(c.a) == 2 and c.a[1] == sel_p]
+        if sf:
+            def is_part(x, idx):
+                return x.k in ("proj", "field") and (str(x.a[1]) == idx or str(x.a[1]).endswith("." + idx)) and any(y == sf[0] for y in subterms(x))
+            folds = [c for c in trace if c.k == "call" and PL.method_name(c.a[0]) == "fold" and len(c.a) == 4]
+            for c in folds:
+                it, init = c.a[1], c.a[2]
+                it_ok = it.k == "call" and PL.method_name(it.a[0]) in ("iter", "into_iter") and len(it.a) == 2 and is_part(it.a[1], "1")
+                init_ok = init.k == "call" and init.a[0] == selp and is_part(init.a[1], "0")
+                comb = [r for r in trace if r.k == "call" and r.a[0].endswith("State::<'a, T>::reduce") and len(r.a) == 3
+                        and r.a[1].k == "loopvar" and r.a[2].k == "call" and r.a[2].a[0] == selp
+                        and r.a[2].a[1].k == "call" and r.a[2].a[1].a[0] == "<item>" and is_part(r.a[2].a[1].a[1], "1")]
+                if it_ok and init_ok and len(comb) == 1:
+                    src_ok = True
     rep.check(src_ok, "C02-R5", "%s|written-order" % fn, where, "selectors iterated in written order", "selectors are not iterated directly")
